@@ -580,6 +580,36 @@ pub fn drive(bytes: &[u8], st: &mut Stats, case: &dyn Fn() -> Value, order: u64,
                     }
                 }
             }
+            // small and uneven caller buffers (a decryptor or decoder that keeps a partly used block must cope with any
+            // split): 7-byte reads; 10 bytes then 1 KiB reads
+            for i in 0..ar.len().min(8) {
+                for mode in 0..2 {
+                    let r = guard(|| {
+                        {
+                        let f = if mode == 0 { ar.by_index(i).ok() } else { ar.by_index_decrypt(i, PW).ok().and_then(|r| r.ok()) };
+                        if let Some(mut f) = f {
+                            let mut small = [0u8; 7];
+                            let mut n = 0;
+                            while let Ok(k) = f.read(&mut small) {
+                                n += k;
+                                if k == 0 || n > 1 << 16 {
+                                    break;
+                                }
+                            }
+                        }
+                        }
+                        let f = if mode == 0 { ar.by_index(i).ok() } else { ar.by_index_decrypt(i, PW).ok().and_then(|r| r.ok()) };
+                        if let Some(mut f) = f {
+                            let mut ten = [0u8; 10];
+                            let _ = f.read(&mut ten);
+                            let _ = budget_read(&mut f);
+                        }
+                    });
+                    if let Err(p) = r {
+                        note(if mode == 0 { "by_index+uneven-reads" } else { "by_index_decrypt+uneven-reads" }, p);
+                    }
+                }
+            }
             for n in &names {
                 if let Err(p) = guard(|| ar.by_name(n).map(|mut f| budget_read(&mut f).0).ok()) {
                     note("by_name", p);
